@@ -135,14 +135,14 @@ def run_sequence_check(chk, prefix, what):
         chk.sample({"cmd": c["cmd"], "script": [cc.hexs(f["bytes"]) for f in c["frames"]],
                     "expected_log": [(e["e"] + ":" + (e["a"] or e["v"] or str(e["n"]))) for e in c["log"]]})
     for rec, flags in flagged + rflag:
-        mine = sorted(f for f in flags if f.startswith(prefix))
+        mine = sorted(f for f in flags if f.startswith(prefix) and not f.endswith("-ambiguous"))
         abnormal = [f for f in flags if f.startswith("abnormal")]
         if abnormal:
             chk.violation("%s:%s" % (rec["cmd"], abnormal[0]), "%s: the exchange %s" % (rec["cmd"], abnormal[0]), brief(rec))
         for f in mine:
             chk.violation("%s:%s" % (rec["cmd"], f), "%s: %s (%s)" % (rec["cmd"], what.get(f, f), f), brief(rec))
         if not mine and not abnormal:
-            other = sorted(f for f in flags if f.startswith("P0"))
+            other = sorted(f for f in flags if f.startswith("P0") and not f.endswith("-ambiguous"))
             if other:
                 chk.notes.append("record flagged for another property: %s %s" % (rec["cmd"], other))
             else:
